@@ -4,6 +4,7 @@ from __future__ import annotations
 
 from . import formats as F
 from .tensym import TenSym, Ten, Obj, Raised
+from . import stores as S
 
 FIELDS = ["coordinates", "time", "cell_lengths", "cell_angles", "velocities", "kineticEnergy", "potentialEnergy", "temperature", "alchemicalLambda"]
 NODE_OF = {f: f for f in FIELDS}
@@ -17,21 +18,34 @@ def arrays(n_frames=2, n_atoms=3, fields=("coordinates", "time", "cell_lengths",
     return {f: Ten.sym(f, shp.get(f, (n_frames,))) for f in fields}
 
 
-def run_write(ctx, given, nodes_present=None, first_write=True, mode="w"):
-    """-> dict(log=[("append", node name, array) | ("headers", flags)], raised=None | exception text, nodes=set of node names afterwards)"""
-    rel, cls = F.rel_cls("h5")
-    fn = F.method(ctx, "h5", "write")
-    mod = ctx.py.mod(rel)
+UNITS = {"coordinates": "nanometers", "time": "picoseconds", "cell_lengths": "nanometers", "cell_angles": "degrees", "velocities": "nanometers/picosecond",
+         "kineticEnergy": "kilojoules_per_mole", "potentialEnergy": "kilojoules_per_mole", "temperature": "kelvin", "lambda": "dimensionless"}
+
+
+def h5_file(ctx, mode="w", n_atoms=3, nodes_present=None, first_write=True, nodes=None):
+    """an HDF5TrajectoryFile object on a model PyTables handle: every node is a growing array (sa/stores.py) that also logs what is appended to it"""
     log = []
-    nodes = {}
+    nodes = nodes if nodes is not None else {}
+    root = Obj(tag="root", _lenient=True)
+    root._contains = lambda name: name in nodes
+    state = {"n_atoms": n_atoms}
 
     def mknode(name):
-        nd = Obj(tag="node " + name, name=name, _lenient=True)
-        nd.append = lambda x_, _n=name: log.append(("append", _n, x_))
+        rs = {"coordinates": (state["n_atoms"], 3), "velocities": (state["n_atoms"], 3), "cell_lengths": (3,), "cell_angles": (3,)}.get(name, ())
+        nd = S.grow_array(name, rs, UNITS.get(name), auto_extend=False)
+        app = nd.append
+
+        def append(x_, _n=name, _app=app):
+            log.append(("append", _n, x_))
+            _app(x_)
+        nd.append = append
         nodes[name] = nd
+        setattr(root, name, nd)
         return nd
     for nm in (nodes_present or []):
         mknode(nm)
+    for nm, nd in list(nodes.items()):
+        setattr(root, nm, nd)
 
     def get_node(where="/", name=None, **kw):
         if name not in nodes:
@@ -40,20 +54,44 @@ def run_write(ctx, given, nodes_present=None, first_write=True, mode="w"):
 
     def init_headers(**kw):
         log.append(("headers", {k: v for k, v in kw.items() if k.startswith("set_")}))
+        if kw.get("n_atoms") is not None:
+            state["n_atoms"] = kw["n_atoms"]
         for flag, names in HEADER_FLAGS.items():
             if kw.get(flag):
                 for nm in names:
                     mknode(nm)
-    me = Obj(tag="h5 file", mode=mode, _needs_initialization=first_write, _frame_index=0, tables=Obj(NoSuchNodeError="NoSuchNodeError"), _lenient=True)
+    me = Obj(tag="h5 file", mode=mode, _needs_initialization=first_write, _frame_index=0, _open=True, tables=Obj(NoSuchNodeError="NoSuchNodeError"), distance_unit="nanometers", _lenient=True)
     me._get_node = get_node
-    me._handle = Obj(tag="pytables handle", root=nodes, get_node=get_node, flush=lambda: None, _lenient=True)     # `name in self._handle.root`: the nodes that exist now
     me._initialize_headers = init_headers
     me.flush = lambda: log.append(("flush",))
-    ts = TenSym({}, models={"ensure_type": lambda ev, c: ev.ex(c.args[0]), "in_units_of": lambda ev, c: ev.ex(c.args[0]), "_check_mode": lambda ev, c: None,
-                            "warnings.warn": lambda ev, c: None})
-    raised = None
+    me._handle = Obj(tag="pytables handle", root=root, get_node=get_node, flush=lambda: None, _lenient=True)
+    me._log, me._nodes = log, nodes
+    return me
+
+
+def _models():
+    def frames(ev, call):
+        kw = {k.arg: ev.ex(k.value) for k in call.keywords}
+        o = Obj(tag="frames", _lenient=True, **kw)
+        c = kw.get("coordinates")
+        o.n_frames = c.shape[0] if isinstance(c, Ten) else 0
+        return o
+    return {"ensure_type": lambda ev, c: (lambda v: ev.to_ten(v) if isinstance(v, (list, tuple)) else v)(ev.ex(c.args[0])), "in_units_of": lambda ev, c: ev.ex(c.args[0]),
+            "_check_mode": lambda ev, c: None, "warnings.warn": lambda ev, c: None, "Frames": frames}
+
+
+def call(ctx, me, method, **kw):
+    """evaluate a method of HDF5TrajectoryFile on the model object; -> (returned value, exception text or None)"""
+    fn = F.method(ctx, "h5", method)
+    ts = TenSym({}, models=_models())
     try:
-        ts.run_fn(fn, self=me, **given)
+        return ts.run_fn(fn, self=me, **kw), None
     except Raised as e:
-        raised = e.exc or str(e)
-    return dict(log=log, raised=raised, nodes=set(nodes), me=me)
+        return None, (e.exc or str(e))
+
+
+def run_write(ctx, given, nodes_present=None, first_write=True, mode="w"):
+    """-> dict(log=[("append", node name, array) | ("headers", flags)], raised=None | exception text, nodes=set of node names afterwards)"""
+    me = h5_file(ctx, mode=mode, n_atoms=(given["coordinates"].shape[1] if isinstance(given.get("coordinates"), Ten) else 3), nodes_present=nodes_present, first_write=first_write)
+    _, raised = call(ctx, me, "write", **given)
+    return dict(log=me._log, raised=raised, nodes=set(me._nodes), me=me)
